@@ -58,6 +58,28 @@ def run(v, tier, seed, replay):
     if need - kinds:
         raise Infra("vacuity: event kinds never recorded: %s" % sorted(need - kinds))
     v.cov["protocol_events_validated"] = nev
+    # ---- step-size controls (part of "change stepper/tolerances"): module StepCtl explored by TLC, every history replayed
+    rs = vlib.tlc("StepCtl", "StepCtl.cfg", timeout=600, coverage=False)
+    vlib.tlc_ok(rs, "StepCtl")
+    cmds = ["QUIET 1", "NEW 1 1 2 1 0 0"]
+    exp = []
+    for e in rs.edges:
+        cmds.append("NEW 2 1 2 1 1 0")
+        cmds.append("STEPCTL 2 %d " % len(e["hist"]) + " ".join("%s %d" % (k, x) for k, x in e["hist"]))
+        cmds.append("DESTROY 2")
+        exp.append(e)
+    cmds.append("DESTROY 1")
+    rc, lines, err = solver.run_script(exe, cmds)
+    outs = [l.split() for l in lines if l.startswith("STEPCTL ")]
+    if rc != 0 or len(outs) != len(exp):
+        raise Infra("step-control replay failed: rc=%s %d/%d %s" % (rc, len(outs), len(exp), err[-300:]))
+    for e, o in zip(exp, outs):
+        got = (float(o[1]) * 2, float(o[2]) * 2, float(o[3]) * 2)
+        if got != (float(e["h2"]), float(e["hmin2"]), float(e["hmax2"])) or o[4] != "1":
+            v.violation("stepctl/%s" % e["hist"][-1][0], "after %s: Get_h, Get_h_min, Get_h_max = %s, specification %s; clock/state untouched=%s" % (
+                e["hist"], [x / 2 for x in got], [e["h2"] / 2, e["hmin2"] / 2, e["hmax2"] / 2], o[4]), {"hist": e["hist"]})
+    v.add("states", rs.distinct); v.add("transitions", rs.generated)
+    v.cov["step_control_histories"] = len(exp)
     # ---- values: two segments, toggles, zero length, moves
     later = [0, 31, 5, 26, 1, 2] if tier == "quick" else [0, 31, 5, 26, 1, 2, 4, 8, 16, 21]
     first = [31, 0, 3, 7, 24, 10, 21, 1, 2, 4, 8, 16] if tier == "quick" else list(range(32))
